@@ -539,7 +539,27 @@ pub fn exec(case: &Case) -> Outcome {
                 }
             };
             let all_d2 = lost.iter().all(|r| covered_by_foreign_mark(r) || taken_by_failed_flush.contains(*r));
-            let sig = if all_in_failed && failed_flush {
+            // Both known classes presuppose the order "chunk registered, then WAL truncated / mark
+            // persisted" within a flush: at the arrival of the n-th after_truncate pause at least n
+            // registrations have taken effect.  A history in which the WAL was truncated ahead of
+            // its flush's registration is explained by neither of them.
+            let reg_served: Vec<u64> = log
+                .iter()
+                .filter(|l| {
+                    l.served > 0
+                        && ((l.desc.op == OpKind::Put && l.desc.path.ends_with("catalog.json") && l.effect_seq > 0)
+                            || (l.desc.op == OpKind::Meta && l.desc.detail == "register_chunk" && matches!(l.outcome.as_str(), "ok" | "err:injected-after" | "crash-after")))
+                })
+                .map(|l| l.served)
+                .collect();
+            let truncated_ahead_of_registration = log
+                .iter()
+                .filter(|l| l.desc.op == OpKind::Pause && l.desc.path == "flush:after_truncate")
+                .enumerate()
+                .any(|(n, p)| reg_served.iter().filter(|s| **s <= p.arrival_served).count() < n + 1);
+            let sig = if truncated_ahead_of_registration {
+                "lost:acknowledged-rows-missing"
+            } else if all_in_failed && failed_flush {
                 "lost:rows-taken-by-a-flush-that-failed"
             } else if all_d2 && (crashes > 0 || restarts > 0) {
                 "lost:flushed-mark-covers-write-not-in-the-flushed-data"
